@@ -35,8 +35,9 @@ fn build(world: &World, tours: &[Value], env: Arc<Environment>) -> InsertionCont
             let (j, part, w) = (a["j"].as_u64().unwrap() as usize - 1, a["part"].as_u64().unwrap() as usize, a["w"].as_u64().unwrap() as usize - 1);
             let t = task_spec(world, j, part);
             let tw = &tws(&t["tws"])[w];
+            let (location, place_idx) = alt_place(t, w);
             rc.route_mut().tour.insert_last(Activity {
-                place: ActPlace { idx: 0, location: t["loc"].as_u64().unwrap() as usize - 1, duration: t["dur"].as_f64().unwrap(), time: tw.clone() },
+                place: ActPlace { idx: place_idx, location, duration: t["dur"].as_f64().unwrap(), time: tw.clone() },
                 schedule: Schedule::new(0., 0.),
                 job: Some(single_of(world, j, part)),
                 commute: None,
